@@ -35,6 +35,7 @@ def run(ctx):
     r6_cancel_bookkeeping(ctx)
     r7_signature_search(ctx)
     r10_preamble_provenance(ctx)
+    r11_last_operator(ctx)
     c07.r1_validator(ctx)   # recorded as R1 of this property: validated before any read
     ctx.alias = {'R2': 'R9'}
     c07.r2_arithmetic(ctx)  # the stage bounds the excerpt and the signature search both use
@@ -71,6 +72,37 @@ def check_signature_clone(ctx, rule):
     ctx.check(okc, rule, cl.loc, cl.qualname, 'clone-copies-dict',
               'SignatureNodes.clone returns a new object holding a copy of the dict',
               'SignatureNodes.clone does not copy the dict: the clone aliases the original context')
+    # who may write a signature context: Node.__init__ (the clone) and SignatureNodes' own methods.  Anything else that reaches into
+    # `<node>.last_signature_nodes.nodes` (merging the contexts of joined sub-spines, copying entries from a neighbour) makes the
+    # signatures in force below that point differ from the ones written above it in that spine.
+    sn = ctx.prog.cls(f'{N.DOCUMENT}.SignatureNodes')
+    n_sites = 0
+    for f_ in ctx.prog.all_functions():
+        if f_.module.generated or getattr(f_.module, 'legacy', False) or f_.cls is sn or isinstance(f_.node, ast.Lambda):
+            continue
+        for n_ in walk_local(f_.node):
+            hit = None
+            if isinstance(n_, ast.Call) and isinstance(n_.func, ast.Attribute) and src(n_.func.value).endswith('.last_signature_nodes.nodes') \
+                    and n_.func.attr in ('update', 'pop', 'clear', 'setdefault', 'popitem', '__setitem__'):
+                hit = n_
+            if isinstance(n_, (ast.Assign, ast.AugAssign, ast.Delete)):
+                tg = n_.targets if isinstance(n_, (ast.Assign, ast.Delete)) else [n_.target]
+                for t in tg:
+                    if isinstance(t, ast.Subscript) and src(t.value).endswith('.last_signature_nodes.nodes'):
+                        hit = n_
+                    if isinstance(t, ast.Attribute) and t.attr == 'nodes' and src(t.value).endswith('.last_signature_nodes'):
+                        hit = n_
+                    if isinstance(t, ast.Attribute) and t.attr == 'last_signature_nodes' and not (f_.name == '__init__' and F.is_name(t.value, 'self')):
+                        hit = n_
+            if hit is not None:
+                n_sites += 1
+                ctx.violation(rule, f'{f_.module.relpath}:{hit.lineno}', f_.qualname, 'signature-context-written-from-outside',
+                              f'`{src(hit)[:80]}` writes into the signature context of a node from outside SignatureNodes / Node.__init__: the clef, '
+                              f'key and meter recorded for one (sub-)spine are replaced by those of another, so an excerpt that starts below '
+                              f'is governed by other signatures than the full score')
+    if not n_sites:
+        ctx.holds(rule, sn.loc if hasattr(sn, 'loc') else '', f'{N.DOCUMENT}.SignatureNodes', 'signature contexts are written only by Node.__init__ (clone) and by SignatureNodes itself')
+
 
 
 def r2_preamble(ctx):
@@ -502,3 +534,41 @@ def r10_preamble_provenance(ctx):
                   f'export_token({a.id}, ...) prints nodes taken from `{src(it)[:100]}`, not from the ancestors of the nodes of from_stage: a spine '
                   f'that ended before the excerpt still gets a cell in that row, so the row has more cells than every other row of the excerpt')
     ctx.expect_count('R10', 'export_token calls in the excerpt preamble', n_ok, 3)
+
+
+# --------------------------------------------------------------------------- R11: "the last spine operator above a node"
+def r11_last_operator(ctx):
+    """Importer.get_last_spine_operator(parent): the parent itself when it is a spine operator, otherwise what the parent recorded
+    (None for no parent).  The cancel book-keeping (a join or a terminator marks THE operator above it as closed at this stage) and
+    the header recovery of every excerpt read that chain; an operator skipped or replaced in it gets the wrong cancel stage."""
+    f = ctx.prog.func(f'{N.IMPORTER}.Importer.get_last_spine_operator')
+    p = f.params[0] if f.params and f.params[0] not in ('self', 'cls') else (f.params[1] if len(f.params) > 1 else None)
+    if p is None:
+        raise AnalysisError(f'{f.loc}: signature of get_last_spine_operator changed')
+    rets = symex.returns(f)
+    if not rets:
+        raise AnalysisError(f'{f.loc}: get_last_spine_operator has no return path')
+    is_op = None
+    bad = []
+    for cond, val, sp in rets:
+        ats = G.atoms_of(cond)
+        op_atoms = [a for a in ats if a.startswith('isinstance(') and 'SpineOperationToken' in a and f'{p}.token' in a]
+        none_atoms = [a for a in ats if a.replace(' ', '') in (f'{p}isNone', f'{p}==None')]
+        v = src(val) if val is not None else 'None'
+        if none_atoms and F.forced(cond, none_atoms[0], True):
+            if v != 'None':
+                bad.append(f'no parent -> `{v}`')
+            continue
+        if op_atoms and F.forced(cond, op_atoms[0], True):
+            if v != p:
+                bad.append(f'parent is a spine operator -> `{v}` (under `{G.show(cond)[:80]}`)')
+            continue
+        if op_atoms and F.forced(cond, op_atoms[0], False):
+            if v != f'{p}.last_spine_operator_node':
+                bad.append(f'parent is not a spine operator -> `{v}`')
+            continue
+        raise AnalysisError(f'{f.loc}: a return path of get_last_spine_operator (`{G.show(cond)[:80]}`) does not decide whether the parent is a spine operator: not followed')
+    ctx.check(not bad, 'R11', f.loc, f.qualname, 'last-operator-chain',
+              'get_last_spine_operator: None -> None, a spine operator -> itself, any other node -> what it recorded',
+              f'get_last_spine_operator: {"; ".join(bad[:2])}: the operator directly above is skipped, so the join / terminator below marks '
+              f'another operator as closed and an excerpt that starts later recovers a split that was already re-joined')
